@@ -216,8 +216,8 @@ def run(ctx: lib.Ctx) -> None:
                 'added/removed by UPDATE in random order, and one set literal (spec-sorted, or permuted/duplicated). '
                 'non-trivial = the two values differ and share their outermost constructor / the set history touches >= 3 values.')
     depth = ctx.n(3, 4)
-    n_pairs = ctx.n(1000, 40000)
-    n_sets = ctx.n(200, 6000)
+    n_pairs = ctx.n(1000, 12000)
+    n_sets = ctx.n(200, 2500)
 
     # ---------------- COMPARE
     triples = []
